@@ -416,6 +416,19 @@ impl<'t> From<RuleError<'t>> for BuildError {
     }
 }
 
+// Verification hook: the kind of a build error without parsing its message.
+#[cfg(olson_sean_k_wax_verif)]
+impl BuildError {
+    /// One of `"parse"`, `"rule"` and `"compile"`.
+    pub fn verif_kind(&self) -> &'static str {
+        match self.kind {
+            BuildErrorKind::Compile(_) => "compile",
+            BuildErrorKind::Parse(_) => "parse",
+            BuildErrorKind::Rule(_) => "rule",
+        }
+    }
+}
+
 #[derive(Clone, Debug, Error)]
 #[non_exhaustive]
 #[cfg_attr(feature = "miette", derive(Diagnostic))]
